@@ -496,9 +496,19 @@ func (in *inst) accessorDecl(f *ast.File, spec *ast.ValueSpec, idx int, v *pkgVa
 		typeExpr = spec.Type
 	} else {
 		// print the inferred type with the import names of this file
+		syncName := "sync"
 		qual := func(p *types.Package) string {
 			if p.Path() == in.pkgPath {
 				return ""
+			}
+			if p.Path() == "sync" {
+				// the sync types are replaced: mark them, rewrite below
+				for _, imp := range f.Imports {
+					if path, _ := strconv.Unquote(imp.Path.Value); path == "sync" && imp.Name != nil {
+						syncName = imp.Name.Name
+					}
+				}
+				return "sync__orig"
 			}
 			for _, imp := range f.Imports {
 				path, _ := strconv.Unquote(imp.Path.Value)
@@ -516,7 +526,26 @@ func (in *inst) accessorDecl(f *ast.File, spec *ast.ValueSpec, idx int, v *pkgVa
 		if err != nil {
 			return nil, fmt.Errorf("package variable %s: cannot express its type %s: %w", v.obj.Name(), src, err)
 		}
-		typeExpr = e
+		// the inferred type names the original sync types; the initialiser
+		// (rewritten with the rest of the file) builds their replacements
+		typeExpr = astutil.Apply(e, func(c *astutil.Cursor) bool {
+			se, ok := c.Node().(*ast.SelectorExpr)
+			if !ok {
+				return true
+			}
+			id, ok := se.X.(*ast.Ident)
+			if !ok || id.Name != "sync__orig" {
+				return true
+			}
+			for _, nm := range []string{"WaitGroup", "Pool", "Mutex", "RWMutex", "Once", "Cond"} {
+				if se.Sel.Name == nm {
+					c.Replace(in.rt(nm))
+					return false
+				}
+			}
+			id.Name = syncName
+			return false
+		}, nil).(ast.Expr)
 	}
 	name := v.obj.Name()
 	slot := ast.NewIdent(name + "__slot")
